@@ -44,6 +44,9 @@ def run(ctx):
     em, _sym = p11.emissions(F.fn(p11.WRITER), F, recv="result")
     p11.writer_board(ctx, F, em)
     p11.writer_fields(ctx, F, em)
+    # (fields 1-4 only: the two move counters are no part of this property)
+    ctx.instances[before:] = [i for i in ctx.instances[before:] if not (i["rule"] == "C11.T7" and "writer:summarisable" not in str(i.get("key", i.get("name", ""))))]
+    ctx.violations[nv:] = [v for v in ctx.violations[nv:] if not (v["rule"] == "C11.T7" and "writer:summarisable" not in str(v.get("key", "")))]
     for i in ctx.instances[before:]:
         i["rule"] = "C02.R8(" + i["rule"] + ")"
     for v in ctx.violations[nv:]:
